@@ -293,6 +293,70 @@ def named_kinds(schema):
                   if "name" in fs and fs["name"].type == "NameDefinition")
 
 
+_LOCFLAGS_CTL = '''
+def shown(message):
+    return not (message.location and message.location.is_synthetic)
+def hidden(loc):
+    if loc:
+        return loc.is_synthetic
+    return False
+'''
+
+
+def locflags(repo, modules=None):
+    """R-LOCFLAGS (C16): SourceLocation.__bool__ looks at the coordinates only, and the flags are independent of them --
+    the location of a synthesized node is `0:0-0:0*`: false, and synthetic.  A read of `.is_synthetic` /
+    `.is_disjoint_from_parent` that is conditional on the truth of the same location therefore reads False exactly for
+    the locations that the flag exists for; diagnostics on synthesized nodes are then shown to the user at
+    `file:[compiler bug]`."""
+    res = RuleResult("R-LOCFLAGS")
+    pt = repo.mod("compiler/util/parser_types.py")
+    b = pt.funcs.get("SourceLocation.__bool__")
+    if b is None:
+        raise AnalysisError("parser_types: SourceLocation.__bool__ vanished")
+    if "is_synthetic" in pt.seg(b.node).split("return", 1)[-1]:
+        res.samples.append("SourceLocation.__bool__ now looks at the flags as well: rule is moot")
+        res.instances = 1
+        return res
+    mods = modules if modules is not None else [m for m in repo.modules.values()
+                                                if m.rel.startswith("compiler/") and not m.rel.endswith("_test.py")]
+    FLAGS = ("is_synthetic", "is_disjoint_from_parent")
+    for m in mods:
+        for n in ast.walk(m.tree):
+            if not (isinstance(n, ast.Attribute) and n.attr in FLAGS and isinstance(n.ctx, ast.Load)):
+                continue
+            base = ast.unparse(n.value)
+            if base in ("self",):
+                continue
+            res.instances += 1
+            cur, why = n, None
+            while cur is not None and why is None:
+                par = m.parent(cur)
+                if isinstance(par, ast.BoolOp) and isinstance(par.op, ast.And):
+                    idx = par.values.index(cur) if cur in par.values else -1
+                    if any(ast.unparse(v) == base for v in par.values[:max(idx, 0)]):
+                        why = ast.unparse(par)
+                if isinstance(par, (ast.If, ast.IfExp)) and cur is not par.test and ast.unparse(par.test) == base \
+                        and (cur in getattr(par, "body", []) or cur is getattr(par, "body", None)):
+                    why = f"if {base}: ..."
+                if isinstance(par, (ast.FunctionDef, ast.Module)):
+                    break
+                cur = par
+            if why:
+                f = m.enclosing_func(n)
+                res.add(f"{m.rel}|{f.qualname if f else ''}|{n.attr}", f"`{why[:80]}` reads {n.attr} only when the location has "
+                        "coordinates; SourceLocation.__bool__ ignores the flags, so a synthesized node (0:0-0:0*) counts as not "
+                        "synthetic and its diagnostics are shown to the user at `[compiler bug]`", m.rel, n.lineno,
+                        f.qualname if f else "")
+    return res
+
+
+def control_locflags(repo):
+    r2 = Repo(repo.root, overlay={"compiler/front_end/zz_verif_control.py": _LOCFLAGS_CTL})
+    g = locflags(r2, [r2.mod("compiler/front_end/zz_verif_control.py")])
+    return len(g.findings) == 2
+
+
 def namedkinds(repo, schema=None, sites=None):
     res = RuleResult("R-NAMEDKINDS")
     schema = schema or Schema(repo)
@@ -337,6 +401,45 @@ def namedkinds(repo, schema=None, sites=None):
             res.add(f"reserved-words|{k}", f"reserved-word check is registered for {sorted(cov)} but not for "
                     f"{k}: a {k} named with a reserved word (e.g. 'class') is accepted and the generated "
                     "header does not compile", cons.rel, 0, "check_constraints")
+    # (a') the reserved-word check is reached on every path of the registered action: no
+    # conditional exit (return/raise/continue) precedes the call that leads to the list
+    def must_call(f, seen=None):
+        seen = seen if seen is not None else set()
+        if f.fq in rw_funcs:
+            return True, None
+        if f.fq in seen:
+            return False, None
+        seen.add(f.fq)
+        by_name = {g.name: g for g in refs.get(f.fq, ())}
+        for st in f.node.body:
+            if isinstance(st, (ast.Return, ast.Expr, ast.Assign)):
+                for c in ast.walk(st):
+                    if isinstance(c, ast.Call) and (call_name(c) or "").split(".")[-1] in by_name:
+                        g = by_name[(call_name(c) or "").split(".")[-1]]
+                        if reaches(g, rw_funcs):
+                            ok, why = must_call(g, seen)
+                            if ok:
+                                return True, None
+                            return False, why
+            for c in ast.walk(st):
+                if isinstance(c, (ast.Return, ast.Raise, ast.Continue)):
+                    return False, (f, c)
+            if isinstance(st, (ast.If, ast.For, ast.While, ast.Try)) and any(
+                    isinstance(c, ast.Call) and (call_name(c) or "").split(".")[-1] in by_name
+                    and reaches(by_name[(call_name(c) or "").split(".")[-1]], rw_funcs) for c in ast.walk(st)):
+                return False, (f, st)
+        return False, (f, f.node)
+
+    for k in kinds:
+        for s in cov.get(k, ()):
+            res.instances += 1
+            ok, why = must_call(s.action)
+            if not ok:
+                wf, wn = why if why else (s.action, s.action.node)
+                res.add(f"reserved-words-total|{k}|{s.action.name}", f"the reserved-word check registered for {k} "
+                        f"({s.action.name}) does not reach the reserved-word list on every path: "
+                        f"`{ast.unparse(wn).splitlines()[0][:80]}` in {wf.name} leaves first, so some {k} names are never checked",
+                        cons.rel, getattr(wn, "lineno", 0), wf.name)
     # (b) symbol-table registration in symbol_resolver: traversals that add names to a scope
     sr = repo.mod("compiler/front_end/symbol_resolver.py")
     add_funcs = {f.fq for f in sr.funcs.values() if f.name in ("_add_name_to_scope", "_add_name_to_scope_and_normalize")}
